@@ -262,6 +262,43 @@ pub fn search(seed: u64, n: u64) {
         let sy = paths[0].0 .1;
         check_scan(&mut stats, &mut rng_s, &sc, &contour, &tcontour, sy, "start_vertex_crossing_join", false, &detail);
     }
+    // two further joins scanned exactly (own stream, scaled / shifted / mirrored copies; keyed on their own - the unchanged code is right on
+    // them): (a) a LENS of two curves whose two end points have exactly the same x, scanned as the column through them - each curve starts AND
+    // ends on the column (from seeded change C16-m9); (b) a corner into which one curve comes down monotonically (its lowest point IS the
+    // corner) while the next one leaves upwards and later dips below the corner's row, scanned at the corner's y, alone and with a mirrored
+    // second corner at the same height (from seeded change C16-m10)
+    let mut rng_m = Rng(seed ^ 0x307C16);
+    for k in 0..(6 + n / 20) {
+        let (sx, sy) = (rng_m.r(1.0, 2.2), rng_m.r(1.0, 2.2));
+        let (ox, oy) = ((rng_m.r(2.0, 10.0) * 4.0).round() / 4.0, (rng_m.r(2.0, 10.0) * 4.0).round() / 4.0);
+        let mirror = k % 2 == 1;
+        let q = |x: f64, y: f64| Coord2(if mirror { ox + sx * (44.0 - x) } else { ox + sx * x }, oy + sy * y);
+        let (path, pos, column, class): (P, f64, bool, &str) = match k % 3 {
+            0 => (flo_curves::bezier::path::BezierPathBuilder::<P>::start(q(14.5, 6.25))
+                    .curve_to((q(27.0, 9.0), q(24.0, 23.0)), q(14.5, 28.75))
+                    .curve_to((q(3.0, 26.0), q(6.5, 11.0)), q(14.5, 6.25)).build(), q(14.5, 0.0).0, true, "lens_with_both_ends_on_the_column"),
+            1 => (flo_curves::bezier::path::BezierPathBuilder::<P>::start(q(4.5, 26.5))
+                    .curve_to((q(6.0, 22.0), q(8.0, 16.0)), q(10.25, 12.5))
+                    .curve_to((q(12.0, 20.0), q(17.0, 2.0)), q(22.0, 9.75))
+                    .line_to(q(29.5, 24.25)).line_to(q(27.0, 30.5)).line_to(q(4.5, 26.5)).build(), q(0.0, 12.5).1, false, "corner_lowest_point_of_one_neighbour"),
+            _ => (flo_curves::bezier::path::BezierPathBuilder::<P>::start(q(4.5, 26.5))
+                    .curve_to((q(6.0, 22.0), q(8.0, 16.0)), q(10.25, 12.5))
+                    .curve_to((q(12.0, 20.0), q(17.0, 2.0)), q(22.0, 9.75))
+                    .curve_to((q(26.5, 2.5), q(31.0, 19.0)), q(33.75, 12.5))
+                    .curve_to((q(35.5, 15.0), q(38.0, 21.0)), q(39.25, 27.5))
+                    .line_to(q(22.0, 31.0)).line_to(q(4.5, 26.5)).build(), q(0.0, 12.5).1, false, "two_corners_lowest_point_of_one_neighbour"),
+        };
+        let path = if k % 4 < 2 { path } else { reversed(&path) };
+        let paths = vec![path];
+        stats.case(&format!("{} {:?}", class, paths), true);
+        stats.count(&format!("scene.{}", class));
+        let sc = Scene { paths: paths.clone(), flat: flatten_set(&paths), fine: flatten_set_fine(&paths), width: 120, height: 100 };
+        let detail = || format!("paths={:?}", sc.paths);
+        let contour = match run_caught(&mut stats, PROP, "PathContour::from_path", &detail, || PathContour::from_path(paths.clone(), ContourSize(120, 100))) { Some(c) => c, None => continue };
+        let tpaths: Vec<P> = paths.iter().map(transposed).collect();
+        let tcontour = match run_caught(&mut stats, PROP, "PathContour::from_path", &detail, || PathContour::from_path(tpaths.clone(), ContourSize(100, 120))) { Some(c) => c, None => continue };
+        check_scan(&mut stats, &mut rng_m, &sc, &contour, &tcontour, pos, class, column, &detail);
+    }
     for _ in 0..n {
         // path sets as in C01 (one operand, or both operands side by side when they do not overlap is not required: one set)
         let pair = gen_pair(&mut rng);
